@@ -412,6 +412,8 @@ def h_mock(params, env=None):
                     if oip and not p.paths_match(noid, dst):
                         return fail("path-style id after rename differs from the new path")
                     if d and not same:
+                        if not oip:
+                            mutated.append((ref.t[ref.key(dst)][2], False))      # the replaced empty folder is gone: its id must be reported as deleted
                         del ref.t[ref.key(dst)]
                     moved = [(q, ref.t[q]) for q in [ref.key(name)] + ref.kids(name)]
                     for q, v in moved:
